@@ -177,10 +177,16 @@ def field_attrs(f, i, sh):
         a += st
     if not a:
         return ''
-    # two spellings: one attribute with a comma list, or several attributes
-    if i % 2 == 0:
+    # four spellings (all legal): one attribute with a comma list; the same with a trailing comma and spread over
+    # several lines; several attributes; several attributes in reverse order, each with a trailing comma
+    v = (i + len(sh['fields']) + sum(map(ord, sh['name']))) % 4
+    if v == 0:
         return '    #[difference(' + ', '.join(a) + ')]\n'
-    return ''.join(f'    #[difference({x})]\n' for x in a)
+    if v == 1:
+        return '    #[difference(\n' + ''.join(f'        {x},\n' for x in a) + '    )]\n'
+    if v == 2:
+        return ''.join(f'    #[difference({x})]\n' for x in a)
+    return ''.join(f'    #[difference({x},)]\n' for x in reversed(a))
 
 
 def gen_types(sh, out, seen):
